@@ -76,3 +76,12 @@ pub fn vf_slice_to_vec<T>(s: &[T]) -> (r: Vec<T>) ensures r@ == s@ { unimplement
 pub fn vf_take_cloned<T>(v: &Vec<T>, n: usize) -> (r: Vec<T>)
     ensures r@ == v@.take(if n as int <= v@.len() { n as int } else { v@.len() as int })
 { unimplemented!() }
+// Vec::into_iter() as the start of an adapter chain
+#[verifier::external_body]
+pub fn vf_into_viter<T>(v: Vec<T>) -> (r: VIter<T>) ensures r@ == v@ { unimplemented!() }
+// `v.into_iter().map(f).collect()`: f is applied to every element in order (so its precondition must hold for each)
+#[verifier::external_body]
+pub fn vf_map_into<T, U, F: Fn(T) -> U>(v: Vec<T>, f: F) -> (r: Vec<U>)
+    requires forall|i: int| 0 <= i < v@.len() ==> f.requires((#[trigger] v@[i],))
+    ensures r@.len() == v@.len(), forall|i: int| 0 <= i < v@.len() ==> f.ensures((v@[i],), #[trigger] r@[i])
+{ unimplemented!() }
